@@ -161,7 +161,7 @@ Fixpoint visit (fuel: nat) (n: node) {struct fuel} : GM str :=
       ind <- make_indent ;;
       nm <- gattr "name" n ;; name <- as_str nm ;;
       v <- gattr "value" n ;;
-      if truthy_v v then (x <- visit f v ;; gret (ind ++ name ++ s " = " ++ x ++ s "," ++ [10]))
+      if truthy_v v then (x <- visit_expr f v ;; gret (ind ++ name ++ s " = " ++ x ++ s "," ++ [10]))
       else gret (ind ++ name ++ s "," ++ [10])
     | C_FuncDef =>
       d <- gattr "decl" n ;; decl <- visit f d ;;
@@ -236,7 +236,7 @@ Fixpoint visit (fuel: nat) (n: node) {struct fuel} : GM str :=
       st <- gattr "stmt" n ;; ss <- generate_stmt f st true ;;
       gret (s "switch (" ++ cs ++ s ")" ++ [10] ++ ss)
     | C_Case =>
-      e <- gattr "expr" n ;; es <- visit f e ;;
+      e <- gattr "expr" n ;; es <- visit_expr f e ;;
       sv <- gattr "stmts" n ;; sl <- as_list sv ;;
       xs <- mapM (fun x => generate_stmt f x true) sl ;;
       gret (s "case " ++ es ++ s ":" ++ [10] ++ concat_str xs)
@@ -286,7 +286,7 @@ with visit_decl (fuel: nat) (n: node) (no_type: bool) {struct fuel} : GM str :=
   match fuel with O => gfuel | S f =>
     s0 <- (if no_type then gattr "name" n else (x <- generate_decl f n ;; gret (VStr x))) ;;
     bs <- gattr "bitsize" n ;;
-    s1 <- (if truthy_v bs then (a <- as_str s0 ;; x <- visit f bs ;; gret (VStr (a ++ s " : " ++ x))) else gret s0) ;;
+    s1 <- (if truthy_v bs then (a <- as_str s0 ;; x <- visit_expr f bs ;; gret (VStr (a ++ s " : " ++ x))) else gret s0) ;;
     i <- gattr "init" n ;;
     s2 <- (if truthy_v i then (a <- as_str s1 ;; x <- visit_expr f i ;; gret (VStr (a ++ s " = " ++ x))) else gret s1) ;;
     as_str s2
@@ -337,7 +337,7 @@ with generate_type (fuel: nat) (n: node) (modifiers: list node) (emit_declname: 
                      dq <- gattr "dim_quals" md ;;
                      dqs <- (if truthy_v dq then (x <- join_strs (s " ") dq ;; gret (x ++ s " ")) else gret []) ;;
                      dm <- gattr "dim" md ;;
-                     ds <- (match dm with VNone => gret [] | _ => visit f dm end) ;;
+                     ds <- (match dm with VNone => gret [] | _ => visit_expr f dm end) ;;
                      go (Some md) r (n1 ++ s "[" ++ dqs ++ ds ++ s "]")
                    else if is_c C_FuncDecl md then
                      let n1 := if prev_ptr then s "(" ++ nstr ++ s ")" else nstr in
